@@ -1446,3 +1446,80 @@ func checkBuilderArgumentRoles(c *Ctx, rule string, pkgs ...string) int {
 	}
 	return n
 }
+
+// checkBatchDistributesAllKeys (C07, C08, C10, C12): each fetch*Batch hands the whole batch of keys it was given to
+// the workers: one distributeKeys call on the unsliced keys parameter (a partition computed by hand drops the
+// remainder of a division: the last keys of a batch are silently not listed).
+func checkBatchDistributesAllKeys(c *Ctx, rule string) {
+	p := c.P
+	n := 0
+	for _, kind := range []string{"Repo", "Bundle", "Label", "Diamond", "Split"} {
+		f := p.FuncOpt("pkg/core.fetch" + kind + "Batch")
+		if f == nil {
+			continue
+		}
+		n++
+		// the []string parameter
+		keysIdx := -1
+		sig := f.Obj.Type().(*types.Signature)
+		for i := 0; i < sig.Params().Len(); i++ {
+			if sl, ok := sig.Params().At(i).Type().Underlying().(*types.Slice); ok {
+				if b, ok := sl.Elem().Underlying().(*types.Basic); ok && b.Kind() == types.String {
+					keysIdx = i
+				}
+			}
+		}
+		calls := p.BodyOf(f).findCalls(callTo("pkg/core.distributeKeys"), true)
+		ok := keysIdx >= 0 && len(calls) == 1 && len(calls[0].Args) == 1 && describeExpr(f, calls[0].Args[0], 0) == "param#"+itoa(keysIdx)
+		got := ""
+		for _, cl := range calls {
+			got += describeExpr(f, cl.Args[0], 0) + " "
+		}
+		// and not inside a loop
+		if ok {
+			for x := f.parentOf(calls[0]); x != nil; x = f.parentOf(x) {
+				switch x.(type) {
+				case *ast.ForStmt, *ast.RangeStmt:
+					ok = false
+				}
+			}
+		}
+		c.check(ok, rule, f.ID, p.Pos(f.Decl.Pos()),
+			"the whole batch of keys is distributed to the workers, once",
+			f.ID+" distributes `"+strings.TrimSpace(got)+"` ("+itoa(len(calls))+" distributeKeys call(s)) instead of its whole keys parameter once: keys of the batch that fall outside the hand-made shares are never fetched and the listing silently misses them")
+	}
+	if n < 5 {
+		c.fail(rule, "pkg/core:fetch-batches", "-", "expected the 5 fetch*Batch functions, found "+itoa(n))
+	}
+}
+
+// checkUpdateRunsAllPhases (C05): Update reports success only after the data phase (unpackDataFiles, which also swaps the
+// metadata to the source bundle) ran: a shortcut "nothing to do" leaves the previous bundle's metadata in place.
+func checkUpdateRunsAllPhases(c *Ctx, rule string) {
+	p := c.P
+	u := p.Func("pkg/core.Update")
+	bad, nSucc := p.BodyOf(u).mustPassBeforeSuccess(callTo("pkg/core.unpackDataFiles"))
+	c.check(len(bad) == 0 && nSucc > 0, rule, u.ID, p.Pos(u.Decl.Pos()),
+		"every success return of Update follows unpackDataFiles",
+		"Update can report success without running unpackDataFiles (data phase and metadata swap): the directory keeps the previous bundle's descriptor and file lists, so it is not what a fresh download of the target bundle gives")
+	w := p.Func("pkg/core.unpackDataFiles")
+	// in update mode (destination given) the metadata of the source is republished before success
+	wb := p.BodyOf(w)
+	bad2, nS2 := wb.mustPassBeforeSuccess(func(bd *Body, call *ast.CallExpr) bool {
+		id := calleeID(bd.Info(), call)
+		return id == "pkg/core.PublishMetadata" || id == "pkg/core.implPublishMetadata"
+	})
+	// success returns reached with bundleDest == nil (plain download) are exempt: they are the ones inside / after the `bundleDest != nil` test's false edge;
+	// approximated: at most the returns that are not dominated by the update branch
+	updReturns := 0
+	for _, r := range bad2 {
+		for x := w.parentOf(r); x != nil; x = w.parentOf(x) {
+			if ifs, ok := x.(*ast.IfStmt); ok && encloses(ifs.Body, r.Pos()) && strings.Contains(nos(describeExpr(w, ifs.Cond, 0)), "param#2!=nil") {
+				updReturns++
+			}
+		}
+	}
+	c.check(updReturns == 0 && nS2 > 0, rule, w.ID+":metadata-swap", p.Pos(w.Decl.Pos()),
+		"in update mode no success return precedes the republication of the source bundle's metadata",
+		"unpackDataFiles can return success in update mode (destination bundle given) before republishing the source bundle's metadata")
+}
